@@ -203,3 +203,30 @@ Theorem C13_spherical_full_sphere I MC m p (f : R -> R) r1 r2 :
   = Ok (4 * PI * RInt (fun r => r * r * f r) r1 r2).
 Proof. exact (spherical_full_sphere I MC m p f r1 r2). Qed.
 Print Assumptions C13_spherical_full_sphere.
+
+(** "every named one-dimensional method returns ..." — for every call a process makes, not only for its first one: the model of sections
+    1.1-1.3 and 2.1 has no state ([run_session] answers the calls of a process one after the other, each by [run_call] of its own
+    arguments, and ends at a call that terminates the process).  The (k+1)-th answer of a process whose first k calls return is the
+    answer the call has on its own, whatever those k calls were (any entry point, method name, method_parameter, limits, integrand)
+    and whatever follows. *)
+Theorem C13_answer_independent_of_history I MC (h t : list call) (c : call) :
+  List.Forall (fun c' => run_call ROps I MC c' <> Exit) h ->
+  nth (List.length h) (run_session ROps I MC (h ++ c :: t)%list) Exit = run_call ROps I MC c.
+Proof. exact (run_session_history I MC h c t). Qed.
+Print Assumptions C13_answer_independent_of_history.
+
+(** every call of such a history is answered *)
+Theorem C13_history_all_answered I MC (cs : list call) :
+  List.Forall (fun c' => run_call ROps I MC c' <> Exit) cs -> List.length (run_session ROps I MC cs) = List.length cs.
+Proof. exact (run_session_length I MC cs). Qed.
+Print Assumptions C13_history_all_answered.
+
+(** in particular the exactness clause holds after any history *)
+Theorem C13_named_exact_after_history I MC (h t : list call) m p g a b :
+  List.Forall (fun c' => run_call ROps I MC c' <> Exit) h ->
+  is_nested_method m = true ->
+  (forall g lo hi, lo < hi -> ex_RInt g lo hi -> selected I m p (okf g) lo hi = Ok (RInt g lo hi)) ->
+  ex_RInt g a b ->
+  nth (List.length h) (run_session ROps I MC (h ++ Call_1d m p (okf g) a b :: t)%list) Exit = Ok (RInt g a b).
+Proof. exact (history_named_exact I MC h t m p g a b). Qed.
+Print Assumptions C13_named_exact_after_history.
